@@ -340,8 +340,17 @@ def run_corpus(seed, samples=60):
     if st not in sys.path:
         sys.path.insert(0, st)
     import pysem.contracts as pc
-    return conformance.run(st, ["pysem.contracts"], pc.FUNCTIONS + pc.NP_FUNCTIONS, samples=samples, seed=seed,
+    rows = conformance.run(st, ["pysem.contracts"], pc.FUNCTIONS + pc.NP_FUNCTIONS, samples=samples, seed=seed,
                            budget_s=60.0, workers=16)
+    # refusal corpus: code whose behaviour depends on the history of the process / object, or on a decorator, must be
+    # out of subset - if it verifies, the engine assumed a fresh state
+    from pyvc import driver
+    reports, _clauses, _reach = driver.run(st, ["pysem.contracts"], list(pc.REFUSE), [], timeout_ms=10000)
+    for r in reports:
+        ok = r["status"] == "out_of_subset"
+        rows.append({"function": r["qualname"], "status": "ok" if ok else "engine_error", "samples": 0, "kind": "must_refuse",
+                     "why": None if ok else "the engine accepted history-dependent code (status %s)" % r["status"]})
+    return rows
 
 
 def run_property(pid, tier, seed, only=None):
